@@ -157,7 +157,7 @@ inline Gen<Value> scalar_value(const ValueOpts &o) {
 }
 
 inline Gen<ustr> table_key(const ValueOpts &o) {
-    auto usual = rc::gen::element<ustr>(u"a", u"A", u"key", u" k ", u"é", u"e\u0301", u"'", u"\"", u"a:b");
+    auto usual = rc::gen::element<ustr>(u"a", u"A", u"key", u" k ", u"é", u"e\u0301", u"'", u"\"", u"a:b", u"'''\"\"\"");   // (the last one has no quoted form at all: cif_write must refuse such a table, and clean up after refusing)
     if (!o.long_keys) return rc::gen::weightedOneOf<ustr>({{1, rc::gen::just(ustr())}, {6, text(o.keyprof, 8)}, {2, usual}});
     // rarely a key that nearly fills a line (a writer must decide where to break the line before "key":value; boundary lengths)
     auto longkey = rc::gen::map(rc::gen::pair(range(1985, 2030), range(0, 999)), [](std::pair<int, int> p) {
